@@ -45,6 +45,7 @@ BaseOptL == [werror |-> FALSE, maxerr |-> 0, suppw |-> FALSE, codeout |-> TRUE, 
 OptsDest   == {[BaseOptL EXCEPT !.lm = l, !.werror = w, !.maxerr = m] : l \in ListModes, w \in BOOLEAN, m \in {0, 2}}
 OptsDestW  == {[BaseOptL EXCEPT !.lm = l, !.werror = w, !.maxerr = m, !.suppw = s] :
                  l \in ListModes, w \in BOOLEAN, m \in {0, 1, 2}, s \in BOOLEAN}
+OptsDestS  == {[BaseOptL EXCEPT !.lm = l, !.maxerr = m, !.suppw = s] : l \in ListModes, m \in {0, 1}, s \in BOOLEAN}
 OptsDest2f == {[BaseOptL EXCEPT !.lm = l, !.werror = w] : l \in ListModes, w \in BOOLEAN}
 ListArgs == {"off", "on", "noskipped", "purecode"}
 KindsDest == {S("ok"), S("warn"), S("err"), S("uwarn"), S("uerr"), S("ufatal"), S("fwd"), S("undef"), S("lsave"), S("lrestore")}
